@@ -637,7 +637,7 @@ def run(ck):
     for n in UF.canon:            # names that already read as prefix+unit are not prefixed again
         _PLAIN[n] = UF.strip(n) == n and n not in UF.ambig
 
-    NQ = 1100 if thorough else 150
+    NQ = 1100 if thorough else 110
 
     # ---------------------------------------------------------------- 1. exact stream (Fraction registry, model + oracles)
     for i in range(NQ):
@@ -645,11 +645,11 @@ def run(ck):
         m = rnd_mag_exact(rng)
         run_.exercise(UF, m, items, "exact", with_model=True, twin_k=1.0 if thorough else 0.4)
     # single units, every rational unit once (to_compact / root on the whole registry)
-    for n in (ratl if thorough else rng.sample(ratl, 80)):
+    for n in (ratl if thorough else rng.sample(ratl, 50)):
         run_.exercise(UF, rnd_mag_exact(rng), [(n, F(rng.choice([1, 1, -1, 2])))], "exact1", with_model=True, twin_k=1.0 if thorough else 0.3)
     # every decimal power: the prefix table as to_compact sees it
     for k in range(-36, 37):
-        for e in (1, -1, 2):
+        for e in ((1, -1, 2) if thorough or k % 3 == 0 else (1,)):
             run_.exercise(UF, F(10) ** k * rng.choice([1, 5, F(1001, 1000)]), [("meter", F(e))], "table", with_model=True, base_k=False, only_compact=True)
 
     # ---------------------------------------------------------------- 2. float registry: oracles; model for to_compact
@@ -658,7 +658,7 @@ def run(ck):
         m = rnd_mag_float(rng)
         # keep floats finite after conversion to root units
         run_.exercise(Uf, m, items, "float", with_model=False)
-    for i in range(NQ * 2):
+    for i in range(NQ * 2 if thorough else 200):
         n = rng.choice(["meter", "second", "gram", "watt", "byte", "newton", "liter", "ampere", "pascal", "mole"] + rng.sample(ratl, 3))
         if rng.random() < 0.3 and _PLAIN.get(n, True):
             n = rng.choice(DEC_PREFIXES) + n
@@ -787,7 +787,7 @@ def run(ck):
             o = f"(inr {xerr(r[1])})"
         run_.add(f"KRatio {coq_str(a)} {coq_str(b)} {o}", {"ratio": [a, b]}, ("ratio", a, b))
     ck.count("ratio", len(prs))
-    for i in range(1200 if thorough else 200):
+    for i in range(1200 if thorough else 120):
         items = rnd_items(rng, ratl, nmax=5)
         q = UF.mk(F(1), items)
         r = call(qto._get_reduced_units, q, q._units.copy())
@@ -914,7 +914,7 @@ def run(ck):
         return out
 
     for R, red, pref, prefs in autoregs():
-        n = (300 if thorough else 60) if not pref else (60 if thorough else 14)
+        n = (300 if thorough else 40) if not pref else (60 if thorough else 12)
         for i in range(n):
             ia, ib = rnd_items(rng, ratl, nmax=2), rnd_items(rng, ratl, nmax=2)
             ma, mb = rnd_mag_exact(rng), rnd_mag_exact(rng)
@@ -951,7 +951,7 @@ def run(ck):
     ck.extra["systems"] = systems
     for s in systems:
         R = Reg(F, system=s)
-        for i in range(250 if thorough else 40):
+        for i in range(250 if thorough else 30):
             items = rnd_items(rng, ratl, nmax=3)
             m = rnd_mag_exact(rng)
             rp = {"registry": {"non_int_type": "Fraction", "system": s}, "quantity": jq(m, items), "helper": "base_units"}
